@@ -485,4 +485,7 @@ property C04: lemma cat_extend, (*input).Peek, (*input).Next, eatWhitespace, par
 
 property C05: parsePossibilityStage, parsePossibilityStageSet, lemma idx_least, lemma idx_is, lemma idx_none, lemma render2, lemma render3, Arch.String[rt], parseArchInto, ParseArch, (*Arch).UnmarshalControl
 
+// C19 rests on the selection proved for C06: per relation, the first alternative applicable to the architecture
+property C19: (*Dependency).GetPossibilities[deb], lemma cnt_mono, lemma cnt_lt, (*ArchSet).Matches[deb], (*Arch).Is[deb]
+
 @*/
